@@ -403,6 +403,7 @@ impl IncrementalEngine {
     /// Insert tuples into a base relation at the given logical time.
     pub fn insert(&self, relation: &str, tuples: Vec<Tuple>, time: u64) -> Result<(), String> {
         self.ensure_relation(relation)?;
+        let time = self.write_time(time);
         self.max_write_time.fetch_max(time, Ordering::SeqCst);
         let updates: Vec<(Tuple, u64, isize)> = tuples.into_iter().map(|t| (t, time, 1)).collect();
         self.command_tx
@@ -416,6 +417,7 @@ impl IncrementalEngine {
     /// Delete tuples from a base relation at the given logical time.
     pub fn delete(&self, relation: &str, tuples: Vec<Tuple>, time: u64) -> Result<(), String> {
         self.ensure_relation(relation)?;
+        let time = self.write_time(time);
         self.max_write_time.fetch_max(time, Ordering::SeqCst);
         let updates: Vec<(Tuple, u64, isize)> = tuples.into_iter().map(|t| (t, time, -1)).collect();
         self.command_tx
@@ -424,6 +426,19 @@ impl IncrementalEngine {
                 updates,
             })
             .map_err(|_| "Worker disconnected".to_string())
+    }
+
+    /// The time at which an update with logical time `time` can enter the dataflow.
+    ///
+    /// A writer draws its logical time before it takes the knowledge graph's write lock,
+    /// so by the time it gets here a consistent read may already have advanced the input
+    /// sessions past that time. `InputSession::update_at` asserts `session time <= time`;
+    /// the failed assertion would kill the worker thread and every later command would
+    /// fail with "Worker disconnected". Such a late update is stamped with the current
+    /// session time instead: it is applied now, and the next consistent read (which
+    /// advances to `max_write_time + 1`) makes it visible.
+    fn write_time(&self, time: u64) -> u64 {
+        time.max(self.current_time.load(Ordering::SeqCst))
     }
 
     /// Advance the logical time and flush all InputSessions.
@@ -836,6 +851,23 @@ mod tests {
         let tuples = engine.read_relation_consistent("items").unwrap();
         assert_eq!(tuples.len(), 3);
         engine.shutdown().unwrap();
+    }
+
+    #[test]
+    fn test_write_below_advanced_time_is_applied_not_fatal() {
+        // a writer that drew time 1 arrives after a consistent read advanced to 3
+        let engine = IncrementalEngine::new(vec!["edge".to_string()]).unwrap();
+        engine.insert("edge", vec![Tuple::from_pair(2, 2)], 2).unwrap();
+        assert_eq!(engine.read_relation_consistent("edge").unwrap().len(), 1);
+        engine.insert("edge", vec![Tuple::from_pair(1, 1)], 1).unwrap();
+        let mut rows = engine.read_relation_consistent("edge").unwrap();
+        rows.sort();
+        assert_eq!(rows, vec![Tuple::from_pair(1, 1), Tuple::from_pair(2, 2)]);
+        engine.delete("edge", vec![Tuple::from_pair(2, 2)], 1).unwrap();
+        assert_eq!(
+            engine.read_relation_consistent("edge").unwrap(),
+            vec![Tuple::from_pair(1, 1)]
+        );
     }
 
     #[test]
